@@ -231,7 +231,7 @@ PROPS["C11"]["rule"] += (" Flush part: tlb::flush / MapperFlush::flush for every
 PROPS["C11"]["assumptions"] = _E4 + ["INVLPGB count semantics: coverage is checked under the crate's reading (max(count,1) pages), the smaller of the two readings (O1)"]
 
 PROPS["C16"] = dict(
-    profiles=BOTH, level="model_checking", units=units_simple(6), engine="vh C16",
+    profiles=BOTH, level="model_checking", units=units_simple(7), engine="vh C16",
     technique="bounded exhaustive enumeration of (prior register content x wrapper x argument) with depth-2 histories (write;read), every execution single-stepped on a trap-and-emulate CPU model and its instruction/event trace compared with the architectural reference",
     rule=("every wrapper named in the property executed under RFLAGS.TF single-stepping with each sensitive instruction (mov crN/drN, rdmsr/wrmsr, xgetbv/xsetbv, mov sreg, "
           "rd/wrfsbase, swapgs, ltr, lgdt/lidt/sgdt/sidt, pushfq/popfq, ld/stmxcsr, retfq) emulated: prior contents = 0, all-ones, every single bit, every all-but-one, patterns "
